@@ -48,6 +48,10 @@ TOKENS = [
     ("hotspots", "missing", ["--sonar-hotspots-json", "{res}/missing-hotspots.json"]),
     ("dojo", "ok", ["--defectdojo-findings-json", "{res}/dojo.json"]),
     ("dojo", "missing", ["--defectdojo-findings-json", "{res}/missing-dojo.json"]),
+    ("sarif", "dup", ["--sarif", "{res}/merged.sarif,{res}/codeql.sarif"]),   # a file holding runs of two tools + one of them again
+    ("sarif", "dup", ["--sarif", "{res}/semgrep.sarif,{res}/merged.sarif"]),
+    ("sarif", "two", ["--sarif", "{res}/merged.sarif"]),
+    ("unser", "projname", ["--project-name", "caf\udce9"]),                    # os.fsdecode(b"caf\xe9"): what a non-UTF-8 argv byte becomes
     ("flag", "dry", ["--dry-run"]),
     ("flag", "workers", ["--max-workers", "2"]),
     ("flag", "pathinc", ["--path-include", "*.py"]),
@@ -65,6 +69,7 @@ RESFILES = {
     "semgrep.sarif": _sarif("Semgrep OSS"),
     "semgrep2.sarif": _sarif("semgrep"),
     "codeql.sarif": _sarif("CodeQL"),
+    "merged.sarif": {"version": "2.1.0", "runs": _sarif("Semgrep OSS")["runs"] + _sarif("CodeQL")["runs"]},
     "sonar.json": {"issues": []},
     "hotspots.json": {"hotspots": []},
     "dojo.json": {"results": []},
@@ -124,7 +129,7 @@ def run(chk: Check) -> None:
         "ExtraSeqs": extra,
         "EnvSeqs": env_seqs,
         "DirTok": 1,
-        "Interesting": {i + 1 for i, t in enumerate(TOKENS) if t[0] in ("output", "sarif", "sonar", "hotspots", "dojo")},
+        "Interesting": {i + 1 for i, t in enumerate(TOKENS) if t[0] in ("output", "sarif", "sonar", "hotspots", "dojo", "unser")},
     }
     # MaxLen-enumeration must not place the last-only tokens mid-sequence: restrict the enumerated pool
     data["Tokens"] = [{"k": t[0], "v": t[1]} for t in pool]
@@ -232,13 +237,13 @@ def _console_runs(scs: list[dict]):
         env.update(sc["steps"][0]["env"])
         env["TMPDIR"] = work
         try:
-            p = subprocess.run(["/venv/bin/codemodder"] + argv, capture_output=True, text=True, env=env, timeout=300, cwd=work)
+            p = subprocess.run(["/venv/bin/codemodder"] + argv, capture_output=True, text=True, errors="replace", env=env, timeout=300, cwd=work)
         except subprocess.TimeoutExpired as ex:
             raise MachineryFailure(f"console run timed out: {argv}") from ex
         rep = False
         if "--output" in argv:
             o = argv[len(argv) - 1 - argv[::-1].index("--output") + 1] if argv[-1] != "--output" else None
-            rep = bool(o and os.path.isfile(o) and o != "/dev/full")
+            rep = bool(o and os.path.isfile(o) and o != "/dev/full" and os.path.getsize(o) > 0)   # an empty leftover is not a written report
         import shutil
 
         shutil.rmtree(work, ignore_errors=True)
